@@ -513,7 +513,7 @@ pub fn suite(out: &mut Out, seed: u64, thorough: bool, mode: &str) {
 			continue;
 		}
 		let len = l as PeriodType;
-		for _rep in 0..(if thorough { 3 } else { 1 }) {
+		for _rep in 0..(if thorough { 4 } else { 2 }) {
 			let mut r = rng.fork(id);
 			let class = deck.draw(&mut dr);
 			let xs: Vec<V> = gen::stream(&mut r, 60 + 2 * l as usize, class).into_iter().map(|x| x as V).collect();
